@@ -439,10 +439,14 @@ def gen_inputs(run):
     rng = run.rng
     T = run.thorough
     inp = {dt: {} for dt in DTS}
-    ex = exhaustive(ALPHA, 6 if T else 5)
+    nmax = 6 if T else 5
+    ex = exhaustive(ALPHA, nmax)
+    ex_short = [s for s in ex if len(s) < nmax]
+    ex_long = [s for s in ex if len(s) == nmax]
     wide = exhaustive(WIDE, 4 if T else 3)
     for dt in DTS:
-        inp[dt]['exhaustive'] = (ex, 1.0)
+        inp[dt]['exhaustive'] = (ex_short, 1.0)            # the model sees all of these ...
+        inp[dt]['exhaustive_longest'] = (ex_long, 0.15 if T else 0.3)   # ... and a sample of the longest
         inp[dt]['f10'] = (F10[dt], 1.0)
     for dt in ('NM', 'SI'):
         inp[dt]['wide'] = (wide, 1.0)
@@ -743,7 +747,9 @@ def main(argv=None):
                 'newline FS ...) up to length %d for NM/SI, the time-of-day grid, every +/-HHMM offset, calendar '
                 'boundaries, boundary lengths, random strings and mutations of conforming strings, the F10 '
                 'witnesses; non-trivial = conforming to the grammar or accepted under STRICT; every version gets '
-                'the F10 witnesses and a sample' % (6 if run.thorough else 5, 4 if run.thorough else 3),
+                'the F10 witnesses and a sample; the Coq model is run on every case of the small categories and on '
+                'a random sample of the large ones (longest exhaustive strings, 6-digit times, offsets, 29 Feb)'
+                % (6 if run.thorough else 5, 4 if run.thorough else 3),
         'samples': samples,
         'traces_validated_against_impl': evaluated,
         'input_distribution': dist,
